@@ -754,14 +754,30 @@ def campaign_family(ck: Check, n_nullable: int, n_nested: int) -> None:
 
 
 # ============================================================ search, findings, replay
+def match_none(ck: Check, f) -> bool:
+    """the failure is not one of the known findings"""
+    from ..runner import match_finding
+
+    return match_finding(ck.findings, f.classification) is None
+
+
 def search(ck: Check) -> None:
-    camp = ck.campaign("search: focused corpus + keyword documents after a broken obligation / correspondence")
+    camp = ck.campaign("search: focused corpus + family and keyword documents after a broken obligation / correspondence")
     for _label, doc in focused_docs():
         for t in TARGETS:
             oracle_doc(ck, camp, doc, t)
         if ck.failures:
             return
     rng = ck.rng.fork("search")
+    # the families first (a disagreement of the model on a family document is most likely to show there)
+    for i in range(40):
+        for gen, tag in ((semfam.nullable_doc, "nullable"), (semfam.nested_allof_doc, "nested")):
+            doc, _f, cand = gen(rng.fork(f"{tag}{i}"), i)
+            insts = [c for c in cand if semgen.is_valid(doc, c)] + semgen.valid_instances(doc, limit=8)
+            for t in TARGETS:
+                oracle_doc(ck, camp, doc, t, insts)
+        if any(match_none(ck, f) for f in ck.failures):
+            return
     for i in range(60):
         doc, _ = semgen.gen_doc(rng.fork(str(i)), gen_cfg(i))
         for t in TARGETS:
